@@ -22,6 +22,8 @@ def run_sweep(chk, orch, oracle, make_wl, n_quick=10, n_round=32, crash_share=0.
         for k in range(n):
             spec, opts = make_wl(chk.rng, k if rounds == 1 else None)
             cell = common.random_cell(chk.rng) if (k > 0 or rounds > 1) else dict(common.GOLDEN_CELL)
+            # a workload may pin parts of its cell (e.g. the memory mode its structure is aimed at)
+            cell.update(opts.pop("force_cell", None) or {})
             a = common.job_args(spec, opts, cell, oracles=[oracle])
             fn = "scenarios:pipeline"
             if chk.rng.random() < crash_share:
